@@ -417,6 +417,8 @@ func (r *TypeReg) declHeap() string {
 			continue
 		}
 		if strings.HasPrefix(c.Sort, "(Array Int (Array ") {
+			// maps (keyed by a non-Int sort): the whole component as a function of the heap
+			fmt.Fprintf(&b, "(define-fun %s ((h Heap)) %s (h.%s h))\n", n, c.Sort, n)
 			continue
 		}
 		if strings.HasPrefix(c.Sort, "(Array Int ") {
